@@ -36,6 +36,8 @@
 //! RNG.
 
 pub mod shim;
+#[cfg(feature = "verif-hooks")]
+pub mod verif;
 
 use indexmap::{IndexMap, IndexSet};
 use rand::{Rng, RngCore};
@@ -1356,6 +1358,11 @@ impl Fs {
 
                     // Randomly decide how many blocks survive (0 to total_blocks inclusive)
                     let surviving_blocks = rng.random_range(0..=total_blocks as usize) as u64;
+                    #[cfg(feature = "verif-hooks")]
+                    crate::verif::record(crate::verif::Decision::TornBlocks {
+                        total: total_blocks,
+                        surviving: surviving_blocks,
+                    });
                     if surviving_blocks == 0 {
                         return None;
                     }
